@@ -31,9 +31,20 @@ KernelsFor(nm, tag) ==
    K(nm, tag, "raw", "plain", H1, S1, {}, {}), K(nm, tag, "raw", "short", H1, S1, {}, {})}
 NearFor(nm, tag) == {K(nm, tag, "raw", "mimic", h, S1, {}, {}) : h \in Near}
 
-KQuick == KernelsFor("ka", 1) \cup KernelsFor("kb", 2) \cup NearFor("ka", 1)
-KBig == KernelsFor("ka", 1) \cup KernelsFor("kb", 2) \cup KernelsFor("kc", 3) \cup NearFor("ka", 1) \cup NearFor("kb", 2)
-         \cup {K("ka", 1, "v5", "plain", H1, S1, {4, 40}, {3, 30})}
+FewFor(nm, tag) ==
+  {K(nm, tag, "v3", "plain", H2, S1, {}, {}), K(nm, tag, "v5", "plain", H1, S1, {70}, {30}),
+   K(nm, tag, "v5", "mimic", H1, S2, {}, {13}), K(nm, tag, "raw", "plain", H1, S1, {}, {})}
+
+NearFew(nm, tag) == {K(nm, tag, "raw", "mimic", h, S1, {}, {}) :
+                        h \in {[H1 EXCEPT !.maj = 2], [H1 EXCEPT !.gen = 10], [H1 EXCEPT !.entry = 0]}}
+KQuick == {Prep(k) : k \in KernelsFor("ka", 1) \cup NearFew("ka", 1) \cup FewFor("kb", 2)}
+KNoise == {Prep(k) : k \in {K("ka", 1, "v3", "plain", H1, S1, {}, {}), K("ka", 1, "v5", "plain", H1, S1, {}, {}),
+                             K("ka", 1, "v5", "mimic", H1, S2, {}, {13}), K("ka", 1, "raw", "plain", H1, S1, {}, {}),
+                             K("ka", 1, "raw", "mimic", [H1 EXCEPT !.entry = 0], S1, {}, {})}}
+KOne == {Prep(k) : k \in KernelsFor("ka", 1) \cup NearFor("ka", 1)}
+KMid == {Prep(k) : k \in KernelsFor("ka", 1) \cup KernelsFor("kb", 2) \cup NearFor("ka", 1)}
+KBig == {Prep(k) : k \in KernelsFor("ka", 1) \cup FewFor("kb", 2) \cup FewFor("kc", 3) \cup NearFor("kb", 2)
+                         \cup {K("ka", 1, "v5", "plain", H1, S1, {4, 40}, {3, 30})}}
 
 LRel == [names |-> <<".text", ".rodata">>, addrs |-> <<Z64, Z64>>]
 LDyn == [names |-> <<".note", ".rodata", ".text", ".data">>,
